@@ -295,6 +295,23 @@ func (w *retWrap) RemoveMessage(mailbox, id string) error {
 	return w.Store.RemoveMessage(mailbox, id)
 }
 
+// PurgeMessages: should the scanner ever empty a mailbox wholesale, that is a destructive call like a removal: the
+// environment steps planned for "the k-th removal" run before it (e.g. a delivery to that mailbox).
+func (w *retWrap) PurgeMessages(mailbox string) error {
+	r := w.r
+	r.removals++
+	if r.scans == 1 {
+		for i := range r.b.Steps {
+			st := &r.b.Steps[i]
+			if st.C == "env" && st.Site == "r" && st.K == r.removals && !st.done {
+				st.TC = "next"
+				r.runEnv(st, mailbox)
+			}
+		}
+	}
+	return w.Store.PurgeMessages(mailbox)
+}
+
 func (w *retWrap) VisitMailboxes(f func([]storage.Message) bool) error {
 	r := w.r
 	r.scans++
